@@ -24,7 +24,10 @@ OBLIGATIONS = [
              "length) against each required set used by the routes: handler runs iff every header is well formed, no secret is empty, lease secrets are 32 bytes and "
              "the set of names equals the required set exactly; then it receives exactly those secrets; otherwise 400 and no call"),
     chx("upload_secret", "C30_h", "h_upload_secret", timeout=T,
-        desc="UploadsInProgress.add_write_bucket/get_write_bucket/validate_upload_secret/remove_write_bucket: a bucket is returned iff that (storage index, share) upload "
+        cases=[{"second": 0, "_label": "one-client"}, {"second": 1, "other": 0, "_label": "second-client-sibling-share,same-si-query"},
+               {"second": 1, "other": 1, "_label": "second-client-sibling-share,other-si-query"}],
+        desc="(optionally a second client then allocates another share of the same storage index with its own secret: each upload keeps the secret it was "
+             "allocated with) UploadsInProgress.add_write_bucket/get_write_bucket/validate_upload_secret/remove_write_bucket: a bucket is returned iff that (storage index, share) upload "
              "exists and the presented secret equals its own; wrong secret 401 before anything is returned; unknown 404; removal forgets the upload and leaves other "
              "clients' uploads alone"),
     chx("extract_secrets_real", "C30_h", "h_extract_secrets_real", timeout=T,
